@@ -463,8 +463,13 @@ def process_get_key_result(c):
         # the only source of an error is the decoder itself: a well-formed reply is never rejected here
         c.post_exc("errors-come-from-the-decoder", lambda e: ("data" in seen) and c.eq(seen["data"], want))
     else:
+        from .c_gkdi import envelope
+
         r = c.param("response")
-        c.inline_instead()
+        c.raises("ValueError", when=None)
+        e = c.fresh(envelope(), "dc_envelope")
+        c.effect(lambda: c.ctx.event("get_key_result", response=r, result=e))
+        c.returns(e)
 
 
 # ================================================================================================ C14: reassembly under any segmentation
@@ -805,6 +810,17 @@ def bind_send_monitor(c, pdu, resp_type_name):
 def _bind_contract(flavour):
     def spec(c):
         I = c.I
+        if not c.verifying:
+            # summary for the conversation contracts (C17): some first ack, or an error; the handshake itself is this contract
+            cl, contexts = c.param("self"), c.param("contexts")
+            for e in ("ValueError", "KeyError", "IndexError", "ConnectionError", "asyncio.IncompleteReadError", "spnego.exceptions.SpnegoError"):
+                c.raises(e, when=None)
+            from .c_rpc import reply_object
+
+            ack = reply_object(c, "BindAck")
+            c.effect(lambda: c.ctx.event("bind", client=cl, contexts=contexts, ack=ack))
+            c.returns(ack)
+            return
         self_ = c.param("self", sync_client() if flavour == "sync" else async_client())
         auth = self_.fields["_auth"]
         n_ctx = 1 + c.ctx.choose(2, "n_contexts")
@@ -904,3 +920,22 @@ def process_bind_result(c):
     c.raises_only({"ValueError", "IndexError"})
     c.returns(None)
     c.post("returns-only-if-the-desired-context-was-accepted", lambda: accepted)
+
+
+def _request_summary(c):
+    """request() = _create_request (C13) + _send_pdu (C14, C16): for the conversation contracts a Response or an error"""
+    cl = c.param("self")
+    if not cl.ghost.get("conn"):
+        c.inline_instead()
+    ctx_id, opnum, stub, vt = c.param("context_id"), c.param("opnum"), c.param("stub_data"), c.param("verification_trailer")
+    for e in ("ValueError", "KeyError", "IndexError", "ConnectionError", "asyncio.IncompleteReadError", "spnego.exceptions.SpnegoError"):
+        c.raises(e, when=None)
+    from .c_rpc import reply_object
+
+    resp = reply_object(c, "Response")
+    c.effect(lambda: c.ctx.event("request", client=cl, context_id=ctx_id, opnum=opnum, stub=stub, verification_trailer=vt, response=resp))
+    c.returns(resp)
+
+
+REG.contract("dpapi_ng._rpc._client.SyncRpcClient.request", props=[], assumed=True, note="composition of _create_request (C13) and _send_pdu (C14/C16); used as a summary by C17")(_request_summary)
+REG.contract("dpapi_ng._rpc._client.AsyncRpcClient.request", props=[], assumed=True, note="composition of _create_request (C13) and _send_pdu (C14/C16); used as a summary by C17")(_request_summary)
